@@ -79,7 +79,9 @@ class GOceanLoopFuseTrans(LoopFuseTrans):
 
         :raises TransformationError: if the supplied loops are over \
                                      different grid-point types.
-
+        :raises TransformationError: if the kernels in the supplied loops \
+                                     expect different index offsets (the \
+                                     loop bounds depend on the offset).
         :raises TransformationError: if invalid parameters are passed in.
 
         '''
@@ -97,6 +99,15 @@ class GOceanLoopFuseTrans(LoopFuseTrans):
                 f"Error in {self.name} transformation. Cannot "
                 f"fuse loops that are over different grid-point types: "
                 f"{node1.field_space} and {node2.field_space}")
+
+        # The bounds of a GOLoop are looked up using the index offset of
+        # the kernel(s) it contains, so two loops can only share one set of
+        # bounds if they have the same index offset.
+        if node1.index_offset != node2.index_offset:
+            raise TransformationError(
+                f"Error in {self.name} transformation. Cannot "
+                f"fuse loops that contain kernels with different index "
+                f"offsets: {node1.index_offset} and {node2.index_offset}")
 
 
 # For automatic documentation generation
